@@ -1,6 +1,7 @@
 import ALV.Common.Json
 import ALV.Model.C14
 import ALV.Model.C14Call
+import ALV.Gen.C14Src
 import ALV.Spec.C14
 namespace ALV.Driver.C14
 open ALV ALV.J ALV.C14 ALV.Gen.Windows
@@ -154,6 +155,16 @@ def handle (entry : String) (j : Json) : Except String Json := do
                     (Kind.all.flatMap Kind.names)),
         ("wsymm", arr (fun k => Json.arr [Json.str k, optJson (fun (r : Kind × Bool) => Json.arr [Json.str r.1.sname, Json.bool r.2]) (resolve true k)])
                     (Kind.all.flatMap Kind.names))])]
+  | "srcregistry" =>
+    -- the state the REGENERATED loop (translator T2b, `Gen/C14Src.lean`) leaves when the interpreter
+    -- (`Model/C14Loop.lean`) runs it on the regenerated table; null = the program raises / is outside the model
+    let links (l : List (Func × Func)) := arr (fun kv => Json.arr [funcToJson kv.1, funcToJson kv.2]) l
+    pure <| match Loop.runTable ALV.Gen.C14.generateWindowStrategies rows with
+      | none => Json.null
+      | some st => Json.mkObj [
+          ("window", sdictToJson st.window), ("wsymm", sdictToJson st.wsymm),
+          ("periodic", links st.periodicAttr), ("symm", links st.symmAttr),
+          ("is_model", Json.bool (decide (st = generated)))]
   | _ => throw s!"C14: unknown entry {entry}"
 
 end ALV.Driver.C14
